@@ -5,6 +5,7 @@ import random
 from fractions import Fraction as Fr
 
 import gfi
+import gfi_corpus
 import gfi_run
 import impl
 import sexp
@@ -108,8 +109,9 @@ def rand_selection(rng, g):
 
 
 # ------------------------------------------------------------------ shards
-def shard_c01(ctx, shard, n):
+def shard_c01(ctx, shard, n, nshards=13):
     G = impl.load()
+    gfi_corpus.run(ctx, G, "C01", shard, nshards)   # structural corpus first
     rng = random.Random(ctx.seed * 7919 + shard)
     for _ in range(n):
         gen, g, pt = _gen(rng, ctx)
@@ -121,8 +123,9 @@ def shard_c01(ctx, shard, n):
         _note(ctx, g, ops, "sim/assess")
 
 
-def shard_c02(ctx, shard, n):
+def shard_c02(ctx, shard, n, nshards=13):
     G = impl.load()
+    gfi_corpus.run(ctx, G, "C02", shard, nshards)   # structural corpus first
     rng = random.Random(ctx.seed * 7919 + shard + 100)
     for _ in range(n):
         gen, g, pt = _gen(rng, ctx)
@@ -149,8 +152,9 @@ def cond_flip_program(rng, ctx):
     return gen, ("fn", body), ["S", "S", "V"]
 
 
-def shard_c03(ctx, shard, n):
+def shard_c03(ctx, shard, n, nshards=13):
     G = impl.load()
+    gfi_corpus.run(ctx, G, "C03", shard, nshards)   # structural corpus first
     rng = random.Random(ctx.seed * 7919 + shard + 200)
     for it in range(n):
         if it % 3 == 2:
@@ -183,8 +187,9 @@ def shard_c03(ctx, shard, n):
         _note(ctx, g, ops, "update")
 
 
-def shard_c04(ctx, shard, n):
+def shard_c04(ctx, shard, n, nshards=13):
     G = impl.load()
+    gfi_corpus.run(ctx, G, "C04", shard, nshards)   # structural corpus first
     rng = random.Random(ctx.seed * 7919 + shard + 300)
     for _ in range(n):
         gen, g, pt = _gen(rng, ctx)
@@ -200,8 +205,9 @@ def shard_c04(ctx, shard, n):
         _note(ctx, g, ops, "regenerate")
 
 
-def shard_c05(ctx, shard, n):
+def shard_c05(ctx, shard, n, nshards=13):
     G = impl.load()
+    gfi_corpus.run(ctx, G, "C05", shard, nshards)   # structural corpus first
     rng = random.Random(ctx.seed * 7919 + shard + 400)
     for _ in range(n):
         gen, g, pt = _gen(rng, ctx)
